@@ -27,7 +27,7 @@ func (c c11EstCase) name() string {
 
 func c11EstCases(quick bool) []EnumCase {
 	var out []EnumCase
-	for _, k := range []string{"relock", "update", "zero-expiry"} {
+	for _, k := range []string{"relock", "update", "zero-expiry", "beside-never-logged-holder"} {
 		for _, m := range []bool{false, true} {
 			for _, v := range []bool{false, true} {
 				for _, t := range []string{"nothing", "unlock"} {
@@ -73,6 +73,10 @@ func evalC11Est(c *Ctx, cs EnumCase) EnumResult {
 			req = withF(withTF(L(2, 1, 1, 2, 40, 0, 2), tfAck), 0x02)
 		case "zero-expiry":
 			req = withTF(L(2, 2, 5, 2, 0, 0, 0), tfAck)
+		case "beside-never-logged-holder":
+			// key 3 (Count 1: two holders) is held by a LockId that asked for its hold never to be logged
+			do(withEF(L(4, 3, 7, 0, 30, 1, 0), 0x0200))
+			req = withTF(L(2, 3, 5, 2, 30, 1, 0), tfAck)
 		}
 		if k.Value {
 			req.Data = after
@@ -102,6 +106,9 @@ func evalC11Est(c *Ctx, cs EnumCase) EnumResult {
 		kb := byte(1)
 		if k.Kind == "zero-expiry" {
 			kb = 2
+		}
+		if k.Kind == "beside-never-logged-holder" {
+			kb = 3
 		}
 		ks := snap.Key(0, [16]byte{15: kb})
 		depth, value := 0, ""
